@@ -2,10 +2,10 @@ package checks
 
 import (
 	"bytes"
-	"strings"
 	"encoding/json"
 	"fmt"
 	"io"
+	"strings"
 
 	"github.com/kstenerud/go-concise-encoding/cbe"
 	"github.com/kstenerud/go-concise-encoding/ce"
@@ -87,19 +87,28 @@ func readEntries() []readEntry {
 				return ev.Join(rec.Events), err
 			}},
 		{"ce.UnmarshalCBE", "cbe",
-			func(r io.Reader) (string, error) { v, err := ce.UnmarshalCBE(r, nil, configuration.New()); return valueKey(v), err },
+			func(r io.Reader) (string, error) {
+				v, err := ce.UnmarshalCBE(r, nil, configuration.New())
+				return valueKey(v), err
+			},
 			func(doc []byte) (string, error) {
 				v, err := ce.UnmarshalFromCBEDocument(doc, nil, configuration.New())
 				return valueKey(v), err
 			}},
 		{"ce.UnmarshalCTE", "cte",
-			func(r io.Reader) (string, error) { v, err := ce.UnmarshalCTE(r, nil, configuration.New()); return valueKey(v), err },
+			func(r io.Reader) (string, error) {
+				v, err := ce.UnmarshalCTE(r, nil, configuration.New())
+				return valueKey(v), err
+			},
 			func(doc []byte) (string, error) {
 				v, err := ce.UnmarshalFromCTEDocument(doc, nil, configuration.New())
 				return valueKey(v), err
 			}},
 		{"ce.UnmarshalCE", "any",
-			func(r io.Reader) (string, error) { v, err := ce.UnmarshalCE(r, nil, configuration.New()); return valueKey(v), err },
+			func(r io.Reader) (string, error) {
+				v, err := ce.UnmarshalCE(r, nil, configuration.New())
+				return valueKey(v), err
+			},
 			func(doc []byte) (string, error) {
 				v, err := ce.UnmarshalFromCEDocument(doc, nil, configuration.New())
 				return valueKey(v), err
